@@ -28,8 +28,15 @@ def untag(parts):
 
 
 class Reg(csr.Register, access="rw"):
+    """All instances compare EQUAL (and hash alike): the memory map must go by object identity."""
     def __init__(self):
         super().__init__({"f": csr.Field(action.RW, 1)})
+
+    def __eq__(self, other):
+        return isinstance(other, Reg)
+
+    def __hash__(self):
+        return 7
 
 
 class Executor:
@@ -38,6 +45,14 @@ class Executor:
         self.res = {}        # rid -> object
         self.rid = {}        # id(object) -> rid
         self.mid = {}        # id(map) -> index (1-based)
+        self.base = {}       # id(map) -> offset of a "huge" map (64 address bits; recorded relative to the base)
+
+    def b(self, m):
+        return self.base.get(id(m), 0)
+
+    def aw(self, m):
+        """logical address width (what the specification is told)"""
+        return self._aw.get(id(m), m.addr_width) if hasattr(self, "_aw") else m.addr_width
 
     def resource(self, rid):
         if rid not in self.res:
@@ -49,22 +64,25 @@ class Executor:
     def views(self):
         out = []
         for m in self.maps:
+            b = self.b(m)
             out.append({
-                "resources": [[self.rid[id(r)], tag(n), s, e] for r, n, (s, e) in m.resources()],
-                "windows": [[self.mid[id(w)], tag(n), s, e, q] for w, n, (s, e, q) in m.windows()],
-                "cursor": m.align_to(0)})
+                "resources": [[self.rid[id(r)], tag(n), s - b, e - b] for r, n, (s, e) in m.resources()],
+                "windows": [[self.mid[id(w)], tag(n), s - b, e - b, q] for w, n, (s, e, q) in m.windows()],
+                # (before its first, explicitly placed item the cursor of a huge map is still 0)
+                "cursor": max(0, m.align_to(0) - b)})
         return out
 
-    def info(self, ri):
-        return [self.rid[id(ri.resource)], [tag(n) for n in ri.path], ri.start, ri.end, ri.width]
+    def info(self, ri, b=0):
+        return [self.rid[id(ri.resource)], [tag(n) for n in ri.path], ri.start - b, ri.end - b, ri.width]
 
     def lookup(self):
         o = {"all": [], "decode": [], "find": []}
         for m in self.maps:
-            o["all"].append([self.info(ri) for ri in m.all_resources()])
+            b = self.b(m)
+            o["all"].append([self.info(ri, b) for ri in m.all_resources()])
             dec = []
-            for a in range(1 << m.addr_width):
-                r = m.decode_address(a)
+            for a in range(1 << self.aw(m)):
+                r = m.decode_address(a + b)
                 dec.append(0 if r is None else self.rid[id(r)])
             o["decode"].append(dec)
             fs = []
@@ -72,7 +90,7 @@ class Executor:
                 obj = self.res.get(rid) or Reg()
                 try:
                     ri = m.find_resource(obj)
-                    fs.append({"id": rid, "found": 1, "info": self.info(ri)})
+                    fs.append({"id": rid, "found": 1, "info": self.info(ri, b)})
                 except KeyError:
                     fs.append({"id": rid, "found": 0, "info": []})
             o["find"].append(fs)
@@ -83,9 +101,17 @@ class Executor:
         c = dict(c)
         call = c["call"]
         if call == "new":
-            m = MemoryMap(addr_width=c["aw"], data_width=c["dw"], alignment=c["al"])
+            huge = c.pop("huge", 0)
+            m = MemoryMap(addr_width=64 if huge else c["aw"], data_width=c["dw"], alignment=c["al"])
             self.maps.append(m)
             self.mid[id(m)] = len(self.maps)
+            if huge:
+                # the top 2^aw addresses of a 64-bit space: every address is recorded relative to the base (the
+                # allocation rules are translation-invariant for a base that is a multiple of 2^aw)
+                self.base[id(m)] = (1 << 64) - (1 << c["aw"])
+                if not hasattr(self, "_aw"):
+                    self._aw = {}
+                self._aw[id(m)] = c["aw"]
             return c, {"views": self.views()}
         if call == "lookup":
             try:
@@ -94,6 +120,7 @@ class Executor:
                 n = len(self.maps)
                 return c, {"all": [[["error", type(e).__name__]]] * n, "decode": [[]] * n, "find": [[]] * n}
         m = self.maps[c["m"] - 1]
+        b = self.b(m)
         c.update(ok=1, start=0, stop=0, ratio=0, ret=0)
         try:
             if call == "add_resource":
@@ -103,22 +130,24 @@ class Executor:
                 size = {"size_neg": -1, "size_str": "1"}.get(bad, c["size"])
                 kw = {}
                 if c["addr"] >= 0 or bad == "addr_neg":
-                    kw["addr"] = -2 if bad == "addr_neg" else c["addr"]
+                    kw["addr"] = -2 if bad == "addr_neg" else c["addr"] + b
                 if c["alignment"] >= 0 or bad == "al_neg":
                     kw["alignment"] = -1 if bad == "al_neg" else c["alignment"]
-                c["start"], c["stop"] = m.add_resource(obj, name=name, size=size, **kw)
+                s0, s1 = m.add_resource(obj, name=name, size=size, **kw)
+                c["start"], c["stop"] = s0 - b, s1 - b
             elif call == "add_window":
                 w = object() if c["bad"] == "not_map" else self.maps[c["w"] - 1]
                 kw = {}
                 if c["name"]:
                     kw["name"] = untag(c["name"])
                 if c["addr"] >= 0:
-                    kw["addr"] = c["addr"]
+                    kw["addr"] = c["addr"] + b
                 if c["sparse"] != "none":
                     kw["sparse"] = c["sparse"] == "true"
-                c["start"], c["stop"], c["ratio"] = m.add_window(w, **kw)
+                s0, s1, c["ratio"] = m.add_window(w, **kw)
+                c["start"], c["stop"] = s0 - b, s1 - b
             elif call == "align_to":
-                c["ret"] = m.align_to(c["al"])
+                c["ret"] = m.align_to(c["al"]) - b
             elif call == "freeze":
                 m.freeze()
             elif call == "bridge":
@@ -391,10 +420,55 @@ def twin_history(r):
     return steps
 
 
+def huge_history(r):
+    """The top 2^aw addresses of a 64-bit map (recorded relative to the base): the same rules must hold where
+    addresses no longer fit a double or a machine word.  Starts with an explicitly placed anchor so that the
+    cursor lives up there; then implicit / explicit / aligned resources, small windows, align_to, lookups."""
+    ex = Executor()
+    steps = []
+
+    def do(c):
+        i, o = ex.apply(c)
+        steps.append({"i": i, "o": o})
+        return i
+    aw = r.choice([6, 7, 8])
+    do({"call": "new", "aw": aw, "dw": 8, "al": r.choice([0, 0, 1]), "huge": 1})
+    for _ in range(2):
+        do({"call": "new", "aw": r.choice([1, 2, 3]), "dw": 8, "al": 0})
+    rid = [0]
+
+    def add(m, addr, size, al):
+        rid[0] += 1
+        return do({"call": "add_resource", "m": m, "res": rid[0], "name": tag((f"r{rid[0]}",)), "size": size, "addr": addr,
+                   "alignment": al, "bad": "none"})
+    add(1, r.choice([0, 2, 4]), r.choice([1, 3]), -1)                     # the anchor
+    add(2, -1, 1, -1)
+    add(3, -1, 2, -1)
+    used = set()
+    for _ in range(r.randint(8, 16)):
+        x = r.random()
+        if x < 0.6:
+            add(1, r.choice([-1, -1, -1, r.randrange(1 << aw)]), r.choice([1, 1, 2, 3, 5, 8]), r.choice([-1, -1, 0, 1, 2, 3]))
+        elif x < 0.75:
+            do({"call": "align_to", "m": 1, "al": r.choice([0, 1, 2, 3, 4])})
+        elif x < 0.9 and len(used) < 2:
+            w = r.choice([k for k in (2, 3) if k not in used])
+            c = do({"call": "add_window", "m": 1, "w": w, "name": tag(r.choice([None, (f"w{w}",)])),
+                    "addr": r.choice([-1, -1, r.randrange(0, 1 << aw, 8)]), "sparse": "none", "bad": "none"})
+            if c["ok"]:
+                used.add(w)
+        else:
+            do({"call": "lookup"})
+    do({"call": "lookup"})
+    return steps
+
+
 def _hist_job(job):
     kind, arg = job
     if kind == "random":
         seed, length = arg
+        if seed % 8 == 5:
+            return {"cfg": {"seed": seed, "huge": 1}, "steps": huge_history(rng("mm-huge", seed))}
         if seed % 8 == 1:
             return {"cfg": {"seed": seed, "twins": 1}, "steps": twin_history(rng("mm-twin", seed))}
         if seed % 4 == 3:
